@@ -328,7 +328,8 @@ void MEDDLY::pregen_relation::unionLevels()
     apply(UNION, u, events[k], u);
     events[k].set(0);
   }
-  events[u.getLevel()] = u;
+  // u's top level is negative if it starts at a primed level
+  events[ABS(u.getLevel())] = u;
 }
 
 
